@@ -91,6 +91,15 @@ static void listen_setup(PSocketType type)
     if (type == P_SOCKET_TYPE_STREAM && !p_socket_listen(lsock, NULL)) mc_fail("C09", "setup", "listen failed");
     laddr = a;
 }
+/* job "peergone ... -- handler": the application installed its own SIGPIPE handler before it initialised the library; a write to a peer that has gone must
+ * still yield an error and not run that handler (the library promises "an error, not a signal" whatever the application had installed) */
+static void app_sigpipe_handler(int s) { (void)s; }
+void mc_harness_preinit(void)
+{
+    char cmd[512]; int fd = open("/proc/self/cmdline", O_RDONLY); ssize_t n = fd >= 0 ? read(fd, cmd, sizeof cmd - 1) : 0, i;
+    if (fd >= 0) close(fd);
+    for (i = 0; i + 7 < n; i++) if (!memcmp(cmd + i, "handler", 8)) { struct sigaction sa; memset(&sa, 0, sizeof sa); sa.sa_handler = app_sigpipe_handler; sigaction(SIGPIPE, &sa, NULL); }
+}
 static void sigpipe_state(void) { struct sigaction sa; sigaction(SIGPIPE, NULL, &sa); ksim_sigpipe_ignored = sa.sa_handler == SIG_IGN; }
 
 static void h_stream(int argc, char **argv)
